@@ -1,6 +1,7 @@
 pub mod fp;
 pub mod json;
 pub mod par;
+pub mod quiet;
 pub mod report;
 pub mod stats;
 
